@@ -5,7 +5,7 @@
 (* types with empty values and set regexes; every relation of the two      *)
 (* time ranges), one loop iteration per step.                              *)
 (***************************************************************************)
-EXTENDS StorePrune, TLC, Json, IOUtils, SequencesExt
+EXTENDS StorePrune, TLC, Json, IOUtils, SequencesExt, FiniteSetsExt
 CONSTANTS MaxLsets, MaxMatchers, CaseStride
 
 NameU == {1, 2}
@@ -20,8 +20,8 @@ MatcherU == { [name |-> n, type |-> t, val |-> v, re |-> NoRe] : n \in NameU, t 
 (* the query asks for [20,30]; store ranges before, touching, inside, around, after *)
 RangeU == { <<0, 10>>, <<0, 20>>, <<20, 30>>, <<25, 26>>, <<30, 50>>, <<31, 50>>, <<0, 50>>, <<0, 19>> }
 
-LsetSeqs == UNION { { SetToSeq(S) : S \in { T \in SUBSET LsetU : Cardinality(T) = n } } : n \in 0..MaxLsets }
-MatcherSeqs == UNION { { SetToSeq(S) : S \in { T \in SUBSET MatcherU : Cardinality(T) = n } } : n \in 1..MaxMatchers }
+LsetSeqs == UNION { { SetToSeq(S) : S \in kSubset(n, LsetU) } : n \in 0..MaxLsets }
+MatcherSeqs == UNION { { SetToSeq(S) : S \in kSubset(n, MatcherU) } : n \in 1..MaxMatchers }
 
 VARIABLES st, q,
           k, i,          \* label-set index, matcher index of the two nested loops
